@@ -67,7 +67,7 @@ def d_budget(ck, prog):
     def mkd(it):
         d = it.ctx.sym('d_prev', 102); it.ctx.assume(d >= 1); it.ctx.assume(d <= z3.Int('a') + z3.Int('b')); return U512(d)
     la = {HD: {'header': header, 'havoc': {dbg['d']: mkd, dbg['iter']: lambda it: SymRange(it.ctx.sym('iter_i', 9), budget, False)}, 'observe': [], 'keep_back': True, 'back_observe': [dbg['d']]}}
-    dprev = z3.Int('d_prev'); ok = True; n = 0
+    dprev = z3.Int('d_prev'); ok = True; n = 0; step_sat = False; step_unknown = False
     for p in ck.explore(prog, body, 'kernel.d.step', loop_abs=la, validate=False, feas_ms=4000):
         if p.kind == 'back': dn = deref(p.value[dbg['d']]).fields[0]
         elif p.kind == 'ret' and p.value.variant == 'Some':
@@ -77,8 +77,24 @@ def d_budget(ck, prog):
         n += 1
         v2 = ck.oblige('C03.kernel.d.shrink', p, 3 * (dn + 1) <= 2 * dprev, 'from an iterate of at most a + b, one iteration lowers it by less than a third (minus one unit)')
         ok = ok and v2 == 'unsat'
+        # the step itself, against the documented two-coin Newton step (Ann = 2 amp): d' = d (2 dp + Ann S) / ((Ann - 1) d + 3 dp), dp = d^3 / (4 a b) by two floors
+        a_, b_, amp_ = z3.Int('a'), z3.Int('b'), z3.Int('amp')
+        dp = p.div(p.div(dprev * dprev, 2 * a_) * dprev, 2 * b_)
+        spec = p.div(dprev * (dp * 2 + (a_ + b_) * (2 * amp_)), dprev * (2 * amp_ - 1) + dp * 3)
+        r, _, _ = ck.solve(p.conds + [dn != spec], 8000)
+        ck.nobl = getattr(ck, 'nobl', 0)
+        step_sat = step_sat or (r == z3.sat); step_unknown = step_unknown or (r == z3.unknown)
     ck.require(n >= 2, 'kernel.d.step: expected exit and back-edge paths')
     ck.assumptions.append('compute_d budget argument: iterates started at a + b never exceed a + b (used only to select the witness input; an alarm is raised only if the real contract then leaks per the independent invariant)')
+    # the Newton step differs from the documented one: judged on the real contract with a moderately unbalanced deposit (1M : 1M whole tokens, amp 10, deposit 3M : 1 unit)
+    kinds = C03.KIND_CFGS['nc']
+    nice_step = [z3.Int('b0') == 4 * 10 ** 12, z3.Int('b1') == 10 ** 12, z3.Int('f0') == 0, z3.Int('f1') == 0, z3.Int('S') == 2 * 10 ** 12, z3.Int('amp') == 10, z3.Int('d0') == 3 * 10 ** 12, z3.Int('d1') == 1]
+    if step_unknown: ck.inconclusive.append('C03.kernel.d.step: solver gave no verdict on the step formula')
+    for p in ck.explore(prog, C03.provide_body(kinds, first=False, pair_type='ss', amp=C03.amp_sym, decimals=(6, 6)), 'kernel.d.step.witness', stubs={HD: C03.stub_d}, validate=False):
+        if not p.ok: continue
+        ck.oblige('C03.kernel.d.step', p, z3.BoolVal(bool(step_sat)), 'one iteration of compute_d is the documented two-coin Newton step (Ann = 2 amp, d_prod by two floored divisions), for every iterate, reserves and amp',
+                  native_pred=lambda reals, scs: C03.deposit_leaks(reals, scs, (6, 6), kinds), nice=nice_step)
+        break
     if not ok: return
     # the budget against a pool inside the property's range: reserves 1 whole token each (6 decimals), deposit 2^99 units of asset 0 and 1 of asset 1
     A = 100; x, y = 10 ** 6 + 2 ** 99, 10 ** 6 + 1
